@@ -44,6 +44,67 @@ def rl_range_cases(rng, count, dtypes=None):
     return cases
 
 
+def repeated_lattice_cases(rng, count):
+    """many distinct lattice values, each heavily repeated: a range's count exceeds its width
+    although no two members are adjacent (more distinct values than ranges at the level)"""
+    cases = []
+    for _ in range(count):
+        dt = rng.choice([d for d in lib.DTYPES if d not in ("bool", "f32", "f64")])
+        ulo, uhi = numgen.u_range(dt)
+        step = rng.choice([2, 3, 7, 100, 1000])
+        r = step + rng.randint(1, 3) if step <= 7 else rng.randint(8, 40)
+        K = min(rng.randint(40, 1200), 24000 // r)
+        base = rng.randint(ulo, max(ulo, uhi - step * K - 1))
+        us = [min(uhi, base + step * k) for k in range(K) for _ in range(r)]
+        rng.shuffle(us)
+        cases.append(dict(dt=dt, level=rng.choice([2, 4, 6, 8, 8, 8]), order=0, gcds=1, chunks=[[numgen.of_u(dt, u) for u in us]],
+                          shape="gcd-repeated-lattice"))
+    return cases
+
+
+def quantile_outlier_cases(rng, count):
+    """2^level tight clusters far apart with one isolated value between neighbours, 16k-40k
+    numbers and a count that is not a multiple of 2^level: the isolated values sit exactly at
+    the quantile boundaries of the range budget"""
+    cases = []
+    for _ in range(count):
+        dt = rng.choice(["i32", "u32", "i64", "u64", "i16", "f64"])
+        level = rng.choice([1, 2, 3])
+        clusters = 1 << level
+        per = rng.randint(16500 // clusters + 1, 36000 // clusters)
+        ulo, uhi = numgen.u_range(dt)
+        spacing = (uhi - ulo) // (clusters + 1)
+        us = []
+        for c in range(clusters):
+            b = ulo + c * spacing
+            us += [b + (i % min(1000, spacing // 4)) for i in range(per)]
+            if c + 1 < clusters:
+                us.append(b + spacing // 2)
+        if rng.random() < 0.5:
+            rng.shuffle(us)
+        cases.append(dict(dt=dt, level=level, order=0, gcds=rng.randint(0, 1), chunks=[[numgen.of_u(dt, u) for u in us]],
+                          shape="quantile-outliers"))
+    return cases
+
+
+def multi_shape_cases(rng, count):
+    """files whose chunks are generated independently with different shapes and sizes: sparse /
+    run-length chunks of more than a thousand numbers next to small dense ones"""
+    cases = []
+    for _ in range(count):
+        dt = rng.choice(lib.DTYPES)
+        chunks = []
+        shapes = []
+        for _ in range(rng.randint(2, 4)):
+            shape = rng.choice(["sparse", "sparse", "rl_range", "uniform", "zipf", "small", "constant", "lattice"])
+            n = rng.randint(1050, 2600) if shape in ("sparse", "rl_range") or rng.random() < 0.2 else rng.randint(1, 700)
+            chunks.append(numgen.gen(dt, shape, n, rng))
+            shapes.append(shape)
+        cases.append(dict(dt=dt, level=rng.choice([8, 8, 3, 12, 1]), order=rng.choice([0, 0, 0, 1]), gcds=rng.randint(0, 1),
+                          chunks=chunks, shape="multi:" + "+".join(shapes)))
+    return cases
+
+
 def corpus_cases():
     """minimised past failures, always run first"""
     out = []
